@@ -81,6 +81,27 @@ let () =
                 ((N.add (N.mul (n_of_string f) two64) (n_of_string n), n_of_string c), impl_flags.[i] = '1')
             | _ -> failwith "bad G op") (split_on ',' ops) in
           Printf.printf "G %s %d\n" id (if g_monitor items then 1 else 0)
+      | ["Y"; id; ops] ->
+          (* the real group receive path: only authentic messages (a) reach the sender table of
+             fabric 1; forged ones (f, t, w) are refused (x) and change nothing *)
+          if not spec_mode then begin
+            let st = ref gstore_new in
+            let flags = Buffer.create 16 in
+            List.iter (fun op ->
+              match String.split_on_char ':' op with
+              | ["a"; n; c] ->
+                  let (st', a) = g_post_recv !st (n_of_int 1) (n_of_string n) (n_of_string c) in
+                  st := st'; Buffer.add_char flags (if a then '1' else '0')
+              | [_; _; _] -> Buffer.add_char flags 'x'
+              | _ -> failwith "bad Y op") (split_on ',' ops);
+            let ents = List.map (fun e ->
+              Printf.sprintf "%s:%s:%s:%s:%s" (string_of_n e.g_fab) (string_of_n e.g_node)
+                (string_of_n e.g_rx.max_ctr) (string_of_n e.g_rx.bitmap) (string_of_n e.g_last))
+              !st.g_entries in
+            let ents = List.sort compare ents in
+            Printf.printf "Y %s %s %s %s\n" id (Buffer.contents flags)
+              (string_of_n !st.g_clock) (String.concat ";" ents)
+          end
       | ["G"; id; ops] ->
           if not spec_mode then begin
             let st = ref gstore_new in
